@@ -203,3 +203,45 @@ def run(ck):
     rs = returns(dv)
     okm = len(rs) == 1 and is_this_field(rs[0].get("e"), IO + "::m_device")
     ck.ob("C11-O3", sitestr(dv), okm, "device() returns m_device", key="IODeviceSink::device")
+    sinks_driven_through_the_list(ck)
+
+
+def sinks_driven_through_the_list(ck):
+    """C11-O4: the flush walks the handler lists; a sink that is driven from anywhere else (captured by a function handler, held by a
+    wrapper) writes records the flush never reaches.  Sink::send (any override) may be invoked by Sink::process on itself and by an
+    override of send() delegating to its base class; a forwarding sink is accepted when its flush() forwards to the same object."""
+    F = ck.facts
+    ck.rule("C11-O4", "Sink::send is invoked only by Sink::process (the handler adapter) or by an override delegating to its base class: no sink is driven outside the handler lists the flush walks")
+    sink_classes = F.subclasses("QtLogger::Sink") | {"QtLogger::Sink"}
+    n_sites = 0
+    for f in F.fns.values():
+        if f.body is None:
+            continue
+        for n in f.calls():
+            c = strip_tmpl(n.get("callee") or "")
+            if not c.endswith("::send") or c.rsplit("::", 1)[0] not in sink_classes:
+                continue
+            n_sites += 1
+            o = skip_copies(unwrap_ptr(n.get("obj"))) if isinstance(n.get("obj"), dict) else {}
+            on_self = o.get("k") == "this"
+            fname = strip_tmpl(f.name)
+            if on_self and (fname == "QtLogger::Sink::process" or (fname.endswith("::send") and n.get("qualified"))):
+                ck.ob("C11-O4", sitestr(f, n), True, "%s calls %s on itself" % (fname.split("QtLogger::")[-1], c.split("QtLogger::")[-1]), key="send-site|%s" % fname.split("::")[-1])
+                continue
+            # a forwarding sink: its flush() must forward to the same member
+            okfwd = None
+            cls = strip_tmpl(f.cls or "")
+            if cls in sink_classes and o.get("k") == "member":
+                fl = [m for m in F.record(cls)["methods"] if m["name"] == cls + "::flush"] if F.record(cls, optional=True) else []
+                hf = F.fns.get(fl[0]["fn"]) if fl else None
+                if hf is not None and hf.body is not None:
+                    fw = [x for x in hf.calls() if name_is(x.get("callee"), "flush") and isinstance(x.get("obj"), dict) and skip_copies(unwrap_ptr(x["obj"])).get("decl") == o.get("decl")]
+                    okfwd = bool(fw) and Graph(hf).must_pass(set(Graph(hf).sites_of_nodes(fw)))
+                else:
+                    okfwd = False
+            else:
+                okfwd = False
+            ck.ob("C11-O4", sitestr(f, n), okfwd, "%s forwards send() and flush() to the same sink" % cls if okfwd else
+                  "%s drives a sink directly (%s): that sink is in no handler list, so the flush on a fatal message never reaches its file" % (fname.split("QtLogger::")[-1] or "a lambda", describe(n)[:60]),
+                  key="send-site|outside-handler-list")
+    ck.require(n_sites >= 2, "expected the call sites Sink::process -> send and RotatingFileSink::send -> IODeviceSink::send, found %d" % n_sites)
